@@ -360,6 +360,18 @@ CHECKS += [
          technique="lifted execution with solver-chosen step kinds (z3-decided forks) against a list model of the program"),
 ]
 
+CHECKS += [
+    dict(property_id="C40", category="other", engine="E5 symbit + z3",
+         text="Circuit structure (3 operator slots over 9 operator kinds with 0-3 scalar or a matrix parameter, 3 measurement lists with parametrised observables), the trainable "
+              "index set (every subset of the first 4 indices, one past the end included), the indices given to bind_new_parameters and THEIR ORDER are solver variables; every "
+              "choice is a solver-decided path of the REAL QuantumScript code, compared with a flat list model: get_parameters (all / trainable / operations_only), par_info, "
+              "get_operation, acceptance of index sets, bind_new_parameters (right value at each index for any index order, others unchanged, original untouched, identity "
+              "rebinding gives an equal circuit), independence of copies, trainability through qp.transforms.decompose.",
+         note="Category 'other': bounded exhaustive exploration through solver-decided forks on tagged concrete parameter values; known finding F25 (decompose resets "
+              "trainable_params to all parameters, by design of QuantumScript.copy) is recorded. Outside: batched parameters, torch/jax tensors, program capture.",
+         technique="lifted execution with solver-chosen structure, trainable masks and index orders (z3-decided forks) against a flat parameter-list model"),
+]
+
 _NOT_BUILT = "claimed in DESIGN.md §4 but its solver-based check is not built yet in this tree"
 NOT_APPLICABLE_REASONS = {
     "C04": "equality/hash: Python hash() of concrete payloads and tolerance-based allclose relations; no exact relation a solver can decide",
